@@ -9,6 +9,8 @@ A case graph is plain data:
     as    : how the node collection is handed over:          list | tuple | iter | keys
 """
 
+from vf.common import fresh as _fresh
+
 RET_KINDS = ("list", "list", "tuple", "iter", "gen")
 AS_KINDS = ("list", "list", "tuple", "iter", "keys")
 
@@ -27,7 +29,9 @@ class Neighbors:
         self.calls += 1
         if v not in self.ns:
             self.outside_calls += 1
-        lst = list(self.adj.get(v, ()))
+        # neighbours are handed back as equal-but-distinct objects (re-built tuples/frozensets, run-time strings,
+        # ints above 256): node identity is by equality, never by `is`
+        lst = [_fresh(w) for w in self.adj.get(v, ())]
         r = self.ret
         if r == "list":
             return lst
